@@ -29,6 +29,107 @@ theorem louvainProject_entry (n m : Nat) (a : Mat α) (labels : List Int) (i c :
     refine Finset.sum_congr rfl fun j _ => ?_
     split <;> simp [div_eq_mul_inv, mul_comm]
 
+/-! ### `reindex_labels` -/
+
+theorem le_foldl_max (l : List Nat) (init x : Nat) (hx : x ∈ l) : x ≤ l.foldl max init := by
+  induction l generalizing init with
+  | nil => cases hx
+  | cons a t ih =>
+    simp only [List.foldl_cons]
+    rcases List.mem_cons.mp hx with h | h
+    · subst h
+      have : ∀ (t : List Nat) (i : Nat), i ≤ t.foldl max i := by
+        intro t
+        induction t with
+        | nil => intro i; exact Nat.le_refl _
+        | cons b t iht => intro i; simp only [List.foldl_cons]; exact Nat.le_trans (Nat.le_max_left i b) (iht _)
+      exact Nat.le_trans (Nat.le_max_right init x) (this t _)
+    · exact ih _ h
+
+/-- number of nodes carrying label `l` -/
+def labelCount (labels : List Nat) (l : Nat) : Nat := (labels.filter (· == l)).length
+
+theorem mem_labelsKeep (labels : List Nat) (l : Nat) : l ∈ labelsKeep labels ↔ 1 < labelCount labels l := by
+  unfold labelsKeep labelCount
+  simp only [List.mem_filter, List.mem_range, decide_eq_true_eq, gt_iff_lt]
+  constructor
+  · exact fun h => h.2
+  · intro h
+    refine ⟨?_, h⟩
+    have hpos : 0 < (labels.filter (· == l)).length := by omega
+    obtain ⟨x, hx⟩ := List.exists_mem_of_length_pos hpos
+    have hx' := List.mem_filter.mp hx
+    have : x = l := by simpa using hx'.2
+    subst this
+    exact Nat.lt_succ_of_le (le_foldl_max labels 0 x hx'.1)
+
+theorem indexIn_eq_none (keep : List Nat) (l : Nat) : indexIn keep l = none ↔ l ∉ keep := by
+  unfold indexIn
+  by_cases h : List.findIdx (· == l) keep < keep.length
+  · simp only [h, if_true, reduceCtorEq, false_iff, not_not]
+    have := List.findIdx_getElem (w := h)
+    simp only [beq_iff_eq] at this
+    rw [← this]
+    exact List.getElem_mem h
+  · simp only [h, if_false, true_iff]
+    intro hm
+    apply h
+    exact List.findIdx_lt_length_of_exists ⟨l, hm, by simp⟩
+
+theorem indexIn_some (keep : List Nat) (l i : Nat) (h : indexIn keep l = some i) :
+    ∃ hi : i < keep.length, keep[i] = l := by
+  unfold indexIn at h
+  by_cases hlt : List.findIdx (· == l) keep < keep.length
+  · simp only [hlt, if_true, Option.some.injEq] at h
+    subst h
+    refine ⟨hlt, ?_⟩
+    have := List.findIdx_getElem (w := hlt)
+    simpa using this
+  · simp [hlt] at h
+
+/-- **`reindex_labels(which='remove')`**: a node gets `-1` exactly when its Louvain cluster is a singleton, and two
+    nodes that keep a label get the same new label exactly when they had the same old one. -/
+theorem reindexLabels_remove (labels : List Nat) (v w : Nat) :
+    let new : Nat → Int := fun x => match indexIn (labelsKeep labels) (labels.getD x 0) with
+      | some i => (i : Int) | none => -1
+    (new v = -1 ↔ labelCount labels (labels.getD v 0) ≤ 1) ∧
+    (new v ≠ -1 → new w ≠ -1 → (new v = new w ↔ labels.getD v 0 = labels.getD w 0)) := by
+  intro new
+  have hnew : ∀ x, new x = -1 ↔ labels.getD x 0 ∉ labelsKeep labels := by
+    intro x
+    show (match indexIn (labelsKeep labels) (labels.getD x 0) with | some i => (i : Int) | none => -1) = -1 ↔ _
+    rw [← indexIn_eq_none]
+    cases h : indexIn (labelsKeep labels) (labels.getD x 0) with
+    | none => simp
+    | some i => simp
+  constructor
+  · rw [hnew v, mem_labelsKeep]; omega
+  · intro hv' hw'
+    constructor
+    · intro heq
+      have h1 : ∃ i, indexIn (labelsKeep labels) (labels.getD v 0) = some i := by
+        cases h : indexIn (labelsKeep labels) (labels.getD v 0) with
+        | none => exact absurd ((hnew v).mpr ((indexIn_eq_none _ _).mp h)) hv'
+        | some i => exact ⟨i, rfl⟩
+      have h2 : ∃ i, indexIn (labelsKeep labels) (labels.getD w 0) = some i := by
+        cases h : indexIn (labelsKeep labels) (labels.getD w 0) with
+        | none => exact absurd ((hnew w).mpr ((indexIn_eq_none _ _).mp h)) hw'
+        | some i => exact ⟨i, rfl⟩
+      obtain ⟨i, hi⟩ := h1
+      obtain ⟨j, hj⟩ := h2
+      have e1 : new v = (i : Int) := by show (match indexIn _ _ with | some i => (i : Int) | none => -1) = _; rw [hi]
+      have e2 : new w = (j : Int) := by show (match indexIn _ _ with | some i => (i : Int) | none => -1) = _; rw [hj]
+      rw [e1, e2] at heq
+      have hij : i = j := by exact_mod_cast heq
+      obtain ⟨_, g1⟩ := indexIn_some _ _ _ hi
+      obtain ⟨_, g2⟩ := indexIn_some _ _ _ hj
+      subst hij
+      rw [← g1, ← g2]
+    · intro heq
+      show (match indexIn _ (labels.getD v 0) with | some i => (i : Int) | none => -1)
+        = (match indexIn _ (labels.getD w 0) with | some i => (i : Int) | none => -1)
+      rw [heq]
+
 /-- `reindex_labels` never fails without secondary labels -/
 theorem reindexLabels_none (labels : List Nat) (which : Isolated) :
     ∃ prim, reindexLabels labels none which = .ok (prim, none) ∧ prim.length = labels.length := by
